@@ -423,7 +423,7 @@ def f_macro():
     return s
 
 
-def module(name, nimp, nsym, modoid, exports, decls, dialect='smiV2'):
+def module(name, nimp, nsym, modoid, exports, decls, dialect='smiV2', samefrom=False):
     """a module around declaration sentences; IMPORTS with nimp clauses of nsym symbols"""
     s = Sent(dialect)
     s.uc(name)
@@ -438,8 +438,13 @@ def module(name, nimp, nsym, modoid, exports, decls, dialect='smiV2'):
             for j in range(nsym):
                 if j:
                     s.lit(',')
-                s.lc('~imp%d-%d' % (i, j), 'imp%d' % i)
-            s.kw('FROM').uc('~FROM-%d' % i)
+                s.lc('~imp%d-%d' % (i, j), 'imp' if samefrom else 'imp%d' % i)
+            # (samefrom: several FROM clauses naming the SAME module - their symbols form one list, in source order)
+            s.kw('FROM')
+            if samefrom and i:
+                s.toks.append(('UPPERCASE_IDENTIFIER', 'ZQFROM-0'))     # same module again: one entry in the tree
+            else:
+                s.uc('~FROM-0' if samefrom else '~FROM-%d' % i)
         s.lit(';')
     for d in decls:
         s.extend(d)
